@@ -307,11 +307,11 @@ FUNCTIONS['RAND'] = {
 def xrandbetween(bottom, top):
     if isinstance(bottom, bool) or isinstance(top, bool):
         return Error.errors['#VALUE!']
-    dx = top - bottom
-    if dx < 0:
+    bottom, top = math.ceil(bottom), math.floor(top)
+    if top < bottom:
         return Error.errors['#NUM!']
 
-    return bottom + dx * np.random.rand()
+    return bottom + math.floor((top - bottom + 1) * np.random.rand())
 
 
 FUNCTIONS['RANDBETWEEN'] = wrap_ufunc(
